@@ -70,6 +70,7 @@ CONSTANTS
   Lens = {{{lens}}}
   Atts = {{{atts}}}
   MaxFaultAttempts = {maxfault}
+  HardAt = {hard}
   Variant = "{variant}"
 INVARIANTS TypeOK RetryAcceptable Intact AcceptedArrives NoMangle OverfullRefused NoFaultNoError AttachOnce BufferSafe {export}
 {props}
@@ -77,11 +78,11 @@ INVARIANTS TypeOK RetryAcceptable Intact AcceptedArrives NoMangle OverfullRefuse
 
 
 def frag_model(wd, name, sb, arith, cmsgcap, lens, atts, maxfault, variant="code", export=True,
-               liveness=True, workers=8):
+               liveness=True, workers=8, hard=0):
     cfg = os.path.join(wd, name + ".cfg")
     with open(cfg, "w") as f:
         f.write(CFG.format(sb=sb, cmsgcap=cmsgcap, lens=", ".join(map(str, lens)),
-                           atts=", ".join(map(str, atts)), maxfault=maxfault, variant=variant,
+                           atts=", ".join(map(str, atts)), maxfault=maxfault, hard=hard, variant=variant,
                            export="Export" if export else "",
                            props="PROPERTIES SendTerminates ReceiveTerminates" if liveness else "",
                            **arith))
@@ -115,8 +116,17 @@ def replay(wd, name, sb, cases, variant="os", trace=True, timeout=3000):
         if line.startswith("{"):
             results.append(json.loads(line))
     if p.returncode != 0 and len(results) < len(cases):
-        raise ToolError("harness frag exited %d after %d/%d cases:\n%s" % (
-            p.returncode, len(results), len(cases), p.stderr[-3000:]))
+        if p.returncode > 0 and p.returncode not in (101, 134):
+            raise ToolError("harness frag exited %d after %d/%d cases:\n%s" % (
+                p.returncode, len(results), len(cases), p.stderr[-3000:]))
+        # killed by a signal / aborted in the middle of a case (a crash of the code under test is data): that case is
+        # the next one in order; the rest of the chunk is run in a fresh process without a trace
+        victim = cases[len(results)]
+        results.append({"id": victim["id"], "sres": "died", "rres": "died", "rc": p.returncode, "stderr": p.stderr[-600:]})
+        rest = cases[len(results):]
+        if rest:
+            more, _ = replay(wd, name + "x", sb, rest, variant=variant, trace=False, timeout=timeout)
+            results += more
     return results, tr
 
 
@@ -264,7 +274,10 @@ def judge(case, model, res):
     nofault = not any(case.get("fh", []))
     v = None
     sres, rres = res.get("sres"), res.get("rres")
-    if rres in ("panic", "hang"):
+    if sres == "died":
+        v = "the process was killed by signal %s / aborted while this message was being sent or received: %s" % (
+            -res.get("rc", 0), (res.get("stderr") or "").strip()[-200:])
+    elif rres in ("panic", "hang"):
         v = "receiver %s" % rres
     elif sres == "panic":
         v = "send panicked"
@@ -312,6 +325,21 @@ def campaign(pid, configs, variant="os", max_trace_cases=4000, liveness=True):
         r = frag_model(wd, c["name"], sb, arith, cmsgcap, lens, c["atts"], c["maxfault"],
                        liveness=liveness and c.get("liveness", True))
         require_ok(r, "MCFrag " + c["name"])
+        # the same model with transmission attempt k failing for good (an error that is not retried, injected as EINTR)
+        hard_beh = []
+        for k in c.get("hard", ()):
+            rk = frag_model(wd, "%s-hard%d" % (c["name"], k), sb, arith, cmsgcap, lens, c["atts"], c["maxfault"],
+                            liveness=False, hard=k)
+            require_ok(rk, "MCFrag %s hard=%d" % (c["name"], k))
+            if rk.violation and not r.violation:
+                r = rk
+                break
+            states += rk.distinct
+            transitions += rk.generated
+            for b in behaviours(rk):
+                if len(b["fh"]) >= k:          # the attempt was reached
+                    b["hard"] = k
+                    hard_beh.append(b)
         if r.violation:
             rp = vlib_replay(pid, c["name"] + "-model", {"property": pid, "kind": "model", "config": c["name"],
                                                          "invariant": r.violation, "trace": r.trace[:6000]})
@@ -320,8 +348,9 @@ def campaign(pid, configs, variant="os", max_trace_cases=4000, liveness=True):
             continue
         states += r.distinct
         transitions += r.generated
-        beh = behaviours(r)
-        log("  %s: TLC %d distinct states, %d behaviours, %.1fs" % (c["name"], r.distinct, len(beh), r.wall))
+        beh = behaviours(r) + hard_beh
+        log("  %s: TLC %d distinct states, %d behaviours (%d with a hard fault), %.1fs" % (
+            c["name"], r.distinct, len(beh), len(hard_beh), r.wall))
         cases = []
         cid = 0
         for b in beh:
@@ -329,7 +358,7 @@ def campaign(pid, configs, variant="os", max_trace_cases=4000, liveness=True):
                 if b["natt"] == 0 and mix != (c.get("mixes") or [2])[0]:
                     continue
                 cid += 1
-                cases.append({"id": cid, "len": b["len"], "natt": b["natt"], "mix": mix, "fh": b["fh"],
+                cases.append({"id": cid, "len": b["len"], "natt": b["natt"], "mix": mix, "fh": b["fh"], "hard": b.get("hard", 0),
                               "model": {"sres": b["sres"], "rres": b["rres"]}})
         if c.get("limit") and len(cases) > c["limit"]:
             import random
